@@ -264,7 +264,7 @@ class FsSeam:
 
     def _match(self, op, rel, mode=None):
         for f in self.faults:
-            if f.op != op:
+            if f.op != op and not (f.op == "any" and op in ("stat", "open")):
                 continue
             if f.rel is not None and f.rel != rel:
                 continue
